@@ -300,4 +300,81 @@ example :
     (∀ f ∈ exFlat.fields, need { structs := [exFlat] } 4 exFlat [f.name] = true) := by
   decide
 
+/-! ### reflexivity of Equals on Ok views (flat structures)
+
+`C20_copy_dest_equals_src_partial` reduces "after a copy the destination Equals the source" to
+`src.Equals(src)`.  For flat structures that is now proved: an Ok view Equals itself (every
+presence is known and every present field is readable, which is what the per-field clauses of
+the generated `Equals` need).  For nested structures / arrays it is still checked on the real
+code only (post-copy follow-up commands of harness/corr/C20.py). -/
+
+open Emboss.ViewRef in
+theorem C20_equals_reflexive_partial (m : Module) (hm : moduleWF m = true) (sd : StructDef)
+    (hsd : structWF m sd = true) (hflat : flatStruct sd = true) (huniq : namesUnique sd)
+    (ps : List Val) (a : List Nat) (n k : Nat)
+    (hok : (G m (n + 1)).okAt (rootView sd ps a) [] = true) :
+    viewEquals (G m (n + 1)) m (k + 1) (rootView sd ps a) (rootView sd ps a) = true := by
+  have hsda : (rootView sd ps a).sd = sd := rfl
+  simp only [viewEquals, hsda, Bool.and_eq_true, List.all_eq_true]
+  refine ⟨by simp [rootView], ?_⟩
+  intro f hfm
+  have hf := huniq f hfm
+  -- what Ok() of the view says about this field
+  simp only [G, step, hsda, Bool.and_eq_true, List.all_eq_true] at hok
+  have hfield := hok.1.2 f hfm
+  have hff := flat_of_field hflat hf
+  unfold flatField at hff
+  simp only [Bool.and_eq_true] at hff
+  cases hk : f.kind with
+  | alias t => rw [hk] at hff; cases hff.2
+  | virt v r => simp only [fieldEquals, hk]
+  | phys start size ty bo =>
+    rw [hk] at hff
+    cases ty with
+    | struct x y z => cases hff.2
+    | array x y => cases hff.2
+    | scalar kk bits req =>
+      cases n with
+      | zero => simp [G, Oracle.bottom] at hfield
+      | succ n' =>
+        have up2r : ∀ v, (G m (n' + 1)).read (rootView sd ps a) [f.name] = some v →
+            (G m (n' + 3)).read (rootView sd ps a) [f.name] = some v := fun v h =>
+          (C01_fuel_monotone m hm _ hsd (n' + 2)).1 _ _ ((C01_fuel_monotone m hm _ hsd (n' + 1)).1 _ _ h)
+        have up2h : ∀ c, (G m (n' + 1)).has (rootView sd ps a) [f.name] = some c →
+            (G m (n' + 3)).has (rootView sd ps a) [f.name] = some c := fun c h =>
+          (C01_fuel_monotone m hm _ hsd (n' + 2)).2 _ _ ((C01_fuel_monotone m hm _ hsd (n' + 1)).2 _ _ h)
+        rw [fieldEquals_scalar m (n' + 2) sd ps a a _ hf hk]
+        cases hh : (G m (n' + 1)).has (rootView sd ps a) [f.name] with
+        | none => rw [hh] at hfield; cases hfield
+        | some c =>
+          rw [up2h c hh]
+          cases c with
+          | false => simp
+          | true =>
+            rw [hh] at hfield
+            simp only at hfield
+            -- `(G (n'+1)).okAt w [f.name]`: the leaf is readable
+            simp only [G, step, hsda, hf, hk] at hfield
+            have hrd := step_read_scalar m n' sd ps a hf hk
+            cases hst : physStorage (G m n') (rootView sd ps a) f start size with
+            | none => rw [hst] at hfield; simp at hfield
+            | some st =>
+              rw [hst] at hfield hrd
+              simp only [argsKnown, typeOk, Bool.true_and, hsda] at hfield
+              cases hl : leafRead (G m n') (rootView sd ps a) kk bits req (st.adaptFor sd.unit 1 bo bits) with
+              | none => rw [hl] at hfield; simp at hfield
+              | some v =>
+                simp only at hrd
+                rw [hl] at hrd
+                rw [show n' + 2 + 1 = n' + 3 from rfl, up2r v hrd]
+                simp
+
+/-- non-vacuity: the flat example over `01 00 fe` is Ok and Equals itself. -/
+example :
+    (G { structs := [exFlat] } 4).okAt (rootView exFlat [.int 7] [1, 0, 254]) [] = true ∧
+    viewEquals (G { structs := [exFlat] } 4) { structs := [exFlat] } 1
+      (rootView exFlat [.int 7] [1, 0, 254]) (rootView exFlat [.int 7] [1, 0, 254]) = true ∧
+    moduleWF { structs := [exFlat] } = true := by
+  decide
+
 end Emboss.View
